@@ -340,8 +340,6 @@ impl<Aux> Vm<'_, Aux> {
             &*program
         };
         let len = program.bytecode.len();
-        // FIXME: should store in VM
-        let mut remaining_iters = self.max_instr;
         let bytecode_ptr = program.bytecode.as_ptr();
         let payload_to_error =
             |err,
@@ -360,14 +358,15 @@ impl<Aux> Vm<'_, Aux> {
             };
 
         while *instr_ptr < len {
-            remaining_iters -= 1;
-            if remaining_iters == 0 {
+            // the budget is shared by every (re-)entry of the interpreter during one `run`
+            if self.remaining_iters == 0 {
                 return Err(payload_to_error(
                     ExecutionErrorPayload::Timeout,
                     *instr_ptr,
                     &self.runtime_data.call_stack,
                 ));
             }
+            self.remaining_iters -= 1;
             let instr: u8 = unsafe { *bytecode_ptr.add(*instr_ptr) };
             let instr: Instruction = unsafe { transmute(instr) };
             let src_ptr = *instr_ptr;
